@@ -13,7 +13,7 @@ const NAMES: [&str; 2] = ["a", "b"];
 
 /// template sources; `b` only ever gets leaf sources (0..=3) so that dependencies are one level deep
 const SOURCES: [&str; 7] = [
-    "A1{% set ns = namespace() %}{% set ns.k = 1 %}",    // 0 ok (with a namespace attribute assignment)
+    "A1{% set ns = namespace() %}{% set ns.k = 1 %}{{ {'k': [1, ns]}|tojson }}", // 0 ok (with a namespace attribute assignment and a value serialised by the engine)
     "[{{ g }}|{{ 2|f }}|{{ 3 is t }}]",                  // 1 uses global g, filter f, test t
     "{% if %}",                                          // 2 does not compile
     "x{% autoescape 'bogus' %}{% endautoescape %}",      // 3 fails at run time (in an instruction without a span of its own)
@@ -42,6 +42,10 @@ enum Op {
     CloneEnv,
     Render(usize),
     GetMissing,
+    /// a render that never starts: its context is a host value whose conversion fails (0: the
+    /// Serialize implementation returns an error, 1: it panics and the embedder catches the panic, 2:
+    /// it fails after a flattened engine value went through) - the thread lives on
+    BadContext(u8),
 }
 
 fn alphabet() -> Vec<Op> {
@@ -55,7 +59,7 @@ fn alphabet() -> Vec<Op> {
         v.push(Op::Remove(n));
         v.push(Op::Render(n));
     }
-    v.extend([Op::Clear, Op::SetLoader(0), Op::SetLoader(1), Op::AddFilter, Op::RemoveFilter, Op::AddTest, Op::RemoveTest, Op::AddGlobal(1), Op::AddGlobal(2), Op::RemoveGlobal, Op::CloneEnv, Op::GetMissing]);
+    v.extend([Op::Clear, Op::SetLoader(0), Op::SetLoader(1), Op::AddFilter, Op::RemoveFilter, Op::AddTest, Op::RemoveTest, Op::AddGlobal(1), Op::AddGlobal(2), Op::RemoveGlobal, Op::CloneEnv, Op::GetMissing, Op::BadContext(0), Op::BadContext(1), Op::BadContext(2)]);
     v
 }
 
@@ -125,7 +129,7 @@ impl Model {
             Op::RemoveTest => self.test = false,
             Op::AddGlobal(v) => self.global = Some(v),
             Op::RemoveGlobal => self.global = None,
-            Op::CloneEnv | Op::GetMissing => {}
+            Op::CloneEnv | Op::GetMissing | Op::BadContext(_) => {}
             Op::Render(n) => {
                 self.request(n);
                 // templates that load `b` when rendered
@@ -216,7 +220,35 @@ fn apply_real(env: &mut Environment<'static>, op: Op) -> Result<(), String> {
             let _ = env.get_template("zz");
             Ok(())
         }
+        Op::BadContext(kind) => {
+            let r = catch(|| {
+                let ctx = match kind {
+                    2 => Value::from(minijinja::value::Serde(&BadFlat { more: Value::from_pairs([("b", 23)]), bad: BadCtx(0) })),
+                    k => Value::from(minijinja::value::Serde(&BadCtx(k))),
+                };
+                env.render_str("x{{ v }}", ctx).map(|_| ())
+            });
+            let _ = r;
+            Ok(())
+        }
     }
+}
+
+/// a context whose conversion into an engine value fails: by error (0) or by panic (1)
+struct BadCtx(u8);
+impl serde::Serialize for BadCtx {
+    fn serialize<S: serde::Serializer>(&self, _s: S) -> Result<S::Ok, S::Error> {
+        if self.0 == 1 {
+            panic!("host Serialize implementation panics");
+        }
+        Err(serde::ser::Error::custom("host Serialize implementation fails"))
+    }
+}
+#[derive(serde::Serialize)]
+struct BadFlat {
+    #[serde(flatten)]
+    more: Value,
+    bad: BadCtx,
 }
 
 /// what a user can observe: for every name, the outcome of get_template + render (twice)
@@ -293,6 +325,7 @@ fn op_class(op: Op) -> &'static str {
         Op::CloneEnv => "clone",
         Op::Render(_) => "render",
         Op::GetMissing => "get_missing",
+        Op::BadContext(_) => "bad_context",
     }
 }
 
